@@ -11,8 +11,12 @@ Case grammar (one line per case; doubles as C99 hex floats):
   invpoisson n c [O]               -> Inv_CDF_Poisson | CDF_Poisson(result, n)
   quantile p mu sigma [O]          -> Quantile_Gauss | CDF_Gauss(result)
   lik s n b                        -> loglik lik | PMF_Poisson(s+b, n)
+  lik0 s n                         -> the same through the two-argument calls (default background argument)
+  likseq m (s n b)*                -> per call, in this order in one process: loglik lik | per call PMF_Poisson(s+b, n)
   binned S N B (lists)             -> loglik lik | per bin: loglik lik
+  binned0 S N                      -> the same through the overloads without a background argument
   kde n (v w)* xmin xmax bw        -> 150 ordinates at the tabulation abscissae | 149 mid-segment ordinates, Interpolation::Integrate
+  kde0 n (v w)* xmin xmax          -> the same through the call without a bandwidth argument (default: automatic bandwidth)
   O = "@ n (name k args value)*"   : the oracle table = the values the C++ functions of Special_Functions.cpp return for the
                                      calls the model makes (computed by a first pass through the harness, ops d_<name>)."""
 import math, os
@@ -25,7 +29,8 @@ EPS = 2.0 ** -53
 RULE = ("a case counts as non-trivial if one of its arguments lies on a support boundary (x = x_min, x_max, 0, k = trials, mean 0) or in a tail "
         "(CDF < 1e-6 or > 1-1e-6), or the degrees of freedom / Poisson mean / trials are in the top decade of the property's range "
         "(dof >= 40, mean >= 100, trials >= 17, counts >= 50), or it is a malformed request that must terminate the process, or a KDE with "
-        "pseudo-data (>= 3 samples); distinct by case text")
+        "pseudo-data (>= 3 samples), a likelihood with signal exactly 0, a sequence of >= 2 likelihood calls in one process, a binned likelihood with >= 2 bins; "
+        "distinct by case text")
 LEVEL_TEXT = (
     "Theorems (Coq, all real arguments, over the same Gallina terms that are extracted and run): uniform, exponential, normal and Maxwell-Boltzmann: density >= 0, "
     "CDF' = density inside every support piece, CDF non-decreasing, CDF(b) - CDF(a) = RInt density a b for all a, b (Chasles across the support boundaries), "
@@ -310,29 +315,99 @@ def gen_quantile(rng, n):
     return out
 
 
+def lik_count(rng, tot):
+    return rng.choice([0, 0, 1, 2, 500, max(0, min(500, int(tot + rng.uniform(-4, 6) * (math.sqrt(tot) + 1)))), rng.randint(0, 500)])
+
+
+def split_mean(rng, tot):
+    """signal and background with s + b = tot (up to rounding): all signal, all background (signal exactly 0.0), a random share,
+    or one of the two a geometric ladder 1e-16 .. 1e-3 below the other"""
+    r = rng.random()
+    if r < 0.25: return 0.0, tot
+    if r < 0.45: return tot, 0.0
+    if r < 0.75:
+        f = rng.random(); s = tot * f; return s, tot - s
+    f = 10.0 ** rng.uniform(-16, -3)
+    return (tot * f, tot - tot * f) if rng.random() < 0.5 else (tot - tot * f, tot * f)
+
+
+def lik_mean(rng): return rng.choice([1e-3, 1.0, 1e3, logu(rng, 1e-3, 1e3), logu(rng, 1e-3, 1e3), logu(rng, 1e-3, 1e3)])
+
+
 def gen_lik(rng, n):
     out = []
     for _ in range(n):
-        tot = rng.choice([1e-3, 1.0, 1e3, logu(rng, 1e-3, 1e3), logu(rng, 1e-3, 1e3)])
-        f = rng.choice([0.0, 1.0, rng.random()]); s = tot * f; b = tot - s
-        k = rng.choice([0, 1, 2, 500, max(0, min(500, int(tot + rng.uniform(-4, 6) * (math.sqrt(tot) + 1)))), rng.randint(0, 500)])
-        out.append(Proto(f"lik {hx(s)} {k} {hx(b)}", (), ("lik",)))
+        tot = lik_mean(rng)
+        s, b = split_mean(rng, tot)
+        out.append(Proto(f"lik {hx(s)} {lik_count(rng, tot)} {hx(b)}", (), ("lik",)))
+    for _ in range(max(10, n // 5)):     # the two-argument calls
+        tot = lik_mean(rng)
+        out.append(Proto(f"lik0 {hx(tot)} {lik_count(rng, tot)}", (), ("lik", "default-argument")))
+    return out
+
+
+def gen_likseq(rng, n):
+    """call histories: scans over one argument with the other two held bit-identical, repeated points, A B A"""
+    out = []
+    for _ in range(n):
+        m = rng.choice([2, 2, 3, 4, 6])
+        tot = lik_mean(rng); s0, b0 = split_mean(rng, tot); k0 = lik_count(rng, tot)
+        kind = rng.choice(["bscan", "bscan", "sscan", "nscan", "aba", "repeat", "random"])
+        calls = []
+        for j in range(m):
+            if kind == "bscan":
+                b = b0 if j == 0 else rng.choice([0.0, logu(rng, 1e-3, 1e3), b0 * (1 + 10.0 ** rng.uniform(-16, -1)), NA(b0, math.inf)])
+                if not 1e-3 <= s0 + b <= 1e3: b = max(1e-3, min(1e3 - s0, b0 * 0.5 + 1e-3))
+                calls.append((s0, k0, b))
+            elif kind == "sscan":
+                sv = s0 if j == 0 else rng.choice([0.0, logu(rng, 1e-3, 1e3), s0 * (1 + 10.0 ** rng.uniform(-16, -1)), NA(s0, math.inf)])
+                if not 1e-3 <= sv + b0 <= 1e3: sv = max(1e-3, min(1e3 - b0, s0 * 0.5 + 1e-3))
+                calls.append((sv, k0, b0))
+            elif kind == "nscan":
+                calls.append((s0, k0 if j == 0 else rng.choice([0, 1, k0 + 1, max(0, k0 - 1), rng.randint(0, 500)]), b0))
+            elif kind == "aba":
+                if j % 2 == 0: calls.append((s0, k0, b0))
+                else:
+                    t2 = lik_mean(rng); s2, b2 = split_mean(rng, t2)
+                    calls.append(rng.choice([(s0, k0, b2 if s0 + b2 >= 1e-3 else 1.0), (s2 if s2 + b0 >= 1e-3 else 1.0, k0, b0), (s2, lik_count(rng, t2), b2)]))
+            elif kind == "repeat": calls.append((s0, k0, b0))
+            else:
+                t2 = lik_mean(rng); s2, b2 = split_mean(rng, t2); calls.append((s2, lik_count(rng, t2), b2))
+        calls = [(sv, k, b) for sv, k, b in calls if 1e-3 <= sv + b <= 1e3 + 1]
+        out.append(Proto(f"likseq {len(calls)} " + " ".join(f"{hx(sv)} {k} {hx(b)}" for sv, k, b in calls), (), ("lik", "sequence", kind)))
     return out
 
 
 def gen_binned(rng, n):
+    """spectra with bin means s+b in 1e-3..1e3.  Shapes: generic; sparse (most bins carry no signal at all: s = 0.0 exactly, many of them
+    empty); background only (every s = 0.0); flat (neighbouring bins share signal and count bit for bit, backgrounds differ); explicit
+    all-zero background list (must equal the default); default background (empty list or the two-argument overload)"""
     out = []
     for _ in range(n):
-        nb = rng.choice([0, 1, 2, 3, 5, 8])
-        s = [logu(rng, 1e-3, 1e2) for _ in range(nb)]
-        k = [max(0, int(x + rng.uniform(-2, 3) * (math.sqrt(x) + 1))) for x in s]
+        nb = rng.choice([0, 1, 1, 2, 3, 5, 8, 20])
+        shape = rng.choice(["generic", "generic", "sparse", "bgonly", "flat", "zerobg", "default", "default0"])
+        s = []; b = []; k = []
+        for i in range(nb):
+            tot = rng.choice([1e-3, 1e3, logu(rng, 1e-3, 1e3), logu(rng, 1e-3, 1e2), logu(rng, 1e-3, 1e2)])
+            if shape in ("zerobg", "default", "default0"): si, bi = tot, 0.0
+            elif shape == "bgonly" or (shape == "sparse" and rng.random() < 0.7): si, bi = 0.0, tot
+            elif shape == "flat" and i > 0 and rng.random() < 0.7:
+                si = s[-1]; bi = max(logu(rng, 1e-3, 1e2), 1e-3 - si)
+                if si + bi > 1e3: bi = 0.0 if si >= 1e-3 else 1.0
+            else: si, bi = split_mean(rng, tot)
+            s.append(si); b.append(bi)
+            mu = si + bi
+            if shape == "flat" and i > 0 and si == s[-2]: k.append(k[-1])
+            else: k.append(0 if rng.random() < 0.35 else min(500, max(0, int(mu + rng.uniform(-2, 3) * (math.sqrt(mu) + 1)))))
         r = rng.random()
-        if r < 0.3: b = []
-        elif r < 0.8: b = [rng.choice([0.0, logu(rng, 1e-3, 1e2)]) for _ in range(nb)]
-        elif r < 0.9: b = [1.0] * (nb + 1)            # size mismatch: must exit
-        else:
+        if shape == "default0":
+            if r < 0.1: k = k + [1]                    # observed list too long: must exit
+            out.append(Proto(f"binned0 {flist(s)} {ilist(k)}", (), ("binned", shape))); continue
+        if shape == "default": b = []
+        if r < 0.08: b = [1.0] * (nb + 1)              # size mismatch: must exit
+        elif r < 0.16:
             b = [0.5] * nb; k = k + [1]                # observed list too long: must exit
-        out.append(Proto(f"binned {flist(s)} {ilist(k)} {flist(b)}", (), ("binned",)))
+        out.append(Proto(f"binned {flist(s)} {ilist(k)} {flist(b)}", (), ("binned", shape)))
     return out
 
 
@@ -360,6 +435,42 @@ def gen_kde(rng, n, nmax):
         else:
             N = max(N, 3); vals = [c + width * 0.004 * rng.gauss(0, 1) for _ in range(N)]; bw = 0.0
         out.append(Proto(f"kde {N} " + " ".join(f"{hx(v)} {hx(1.0)}" for v in vals) + f" {hx(lo)} {hx(hi)} {hx(bw)}", (), ("kde", "narrow")))
+    # windows far from the origin compared with their width (time stamps, energies above a threshold, ...): the ratio |offset| / width runs
+    # over a geometric ladder 1e1 .. 1e12, both signs, window widths 1e-6 .. 1e6; automatic (also through the default argument) or manual bandwidth
+    for _ in range(n):
+        N = rng.choice([2, 3, 4, 6, 8, 9, 10, 30, rng.randint(2, nmax)])
+        width = rng.choice([1.0, 30.0, logu(rng, 1e-6, 1e6)])
+        ratio = 10.0 ** rng.uniform(1, 12)
+        lo = rng.choice([-1.0, 1.0]) * ratio * width
+        if rng.random() < 0.15: lo, width = 1.7e9 + rng.uniform(0, 1e7), rng.choice([30.0, 3600.0, 0.25])
+        hi = lo + width; width = hi - lo
+        kind = rng.random()
+        if kind < 0.4: us = [rng.random() for _ in range(N)]
+        elif kind < 0.7: us = [abs(rng.gauss(0, 0.3)) for _ in range(N)]
+        else: us = [rng.gauss(0.5, 0.2) for _ in range(N)]
+        vals = [lo + width * u for u in us]
+        ws = [1.0] * N if rng.random() < 0.5 else [rng.uniform(0.2, 3.0) for _ in range(N)]
+        if len(set(vals)) < N: ws = [1.0] * N          # equal values carry equal weights (std::sort's order of ties is unspecified)
+        mean = math.fsum(vals) / N; sd = math.sqrt(math.fsum((v - mean) ** 2 for v in vals) / N)
+        data = " ".join(f"{hx(v)} {hx(w)}" for v, w in zip(vals, ws))
+        if rng.random() < 0.7 and sd > width / 50:
+            if rng.random() < 0.5: out.append(Proto(f"kde {N} {data} {hx(lo)} {hx(hi)} {hx(0.0)}", (), ("kde", "offset")))
+            else: out.append(Proto(f"kde0 {N} {data} {hx(lo)} {hx(hi)}", (), ("kde", "offset", "default-argument")))
+        else:
+            out.append(Proto(f"kde {N} {data} {hx(lo)} {hx(hi)} {hx(width * logu(rng, 0.03, 0.5))}", (), ("kde", "offset")))
+    # a common factor on all weights (1e-100 .. 1e100) and the call without a bandwidth argument near the origin
+    for _ in range(max(4, n // 4)):
+        N = rng.choice([2, 3, 5, 9, 12]); lo = rng.choice([0.0, rng.uniform(-5, 5)]); width = logu(rng, 0.1, 100); hi = lo + width
+        vals = [lo + width * rng.gauss(0.5, 0.2) for _ in range(N)]
+        f = 10.0 ** rng.uniform(-100, 100); ws = [f * rng.uniform(0.2, 3.0) for _ in range(N)]
+        data = " ".join(f"{hx(v)} {hx(w)}" for v, w in zip(vals, ws))
+        mean = math.fsum(vals) / N; sd = math.sqrt(math.fsum((v - mean) ** 2 for v in vals) / N)
+        if sd > width / 50 and rng.random() < 0.6: out.append(Proto(f"kde0 {N} {data} {hx(lo)} {hx(hi)}", (), ("kde", "weight-scale", "default-argument")))
+        else: out.append(Proto(f"kde {N} {data} {hx(lo)} {hx(hi)} {hx(width * logu(rng, 0.03, 0.5))}", (), ("kde", "weight-scale")))
+    # windows so far out that the 150 abscissae are not distinct doubles: the Interpolation constructor must refuse the table
+    for e in (16.5, 18.0):
+        lo = 10.0 ** e; hi = lo * (1 + 2.0 ** -50)
+        out.append(Proto(f"kde 2 {hx(lo)} {hx(1.0)} {hx(hi)} {hx(1.0)} {hx(lo)} {hx(hi)} {hx((hi - lo) / 3)}", (), ("kde", "degenerate-window")))
     # automatic bandwidth on samples without spread
     out.append(Proto(f"kde 1 {hx(0.5)} {hx(1.0)} {hx(0.0)} {hx(1.0)} {hx(0.0)}", (), ("kde", "zero-variance")))
     out.append(Proto(f"kde 3 {hx(0.25)} {hx(1.0)} {hx(0.25)} {hx(2.0)} {hx(0.25)} {hx(1.0)} {hx(0.0)} {hx(1.0)} {hx(0.0)}", (), ("kde", "zero-variance")))
@@ -382,7 +493,8 @@ def generate(rng, tier):
     protos += gen_invpoisson(rng, 150 * f)
     protos += gen_quantile(rng, 150 * f)
     protos += gen_lik(rng, 200 * f)
-    protos += gen_binned(rng, 80 * f)
+    protos += gen_likseq(rng, 80 * f)
+    protos += gen_binned(rng, 160 * f)
     protos += gen_kde(rng, 40 * (4 if big else 1), 150 if big else 60)
     return resolve(protos)
 
@@ -392,7 +504,7 @@ def compare(c, io, mo, tol):
     """the implementation prints S4-only tokens after '|'; the KDE table is compared up to one common factor"""
     head = io.split(" |")[0].strip() if "|" in io else io
     op = c.line.split()[0]
-    if op == "kde" and not head.startswith(("EXIT", "CRASH", "TIMEOUT", "SANITIZER")) and not mo.startswith(("EXIT", "OOB", "FUEL", "MODELERR")):
+    if op in ("kde", "kde0") and not head.startswith(("EXIT", "CRASH", "TIMEOUT", "SANITIZER")) and not mo.startswith(("EXIT", "OOB", "FUEL", "MODELERR")):
         a = parse_vals(head); b = parse_vals(mo)
         if len(a) != len(b) or a[0] != b[0]: return False, False, "kde: different table lengths"
         ya, yb = a[1:], b[1:]
@@ -621,16 +733,24 @@ def predicates(c, io):
             slack = math.sqrt(2) * s * 1e-4 + 8 * EPS * (abs(mu) + 12 * s)
             if not (qlo - slack <= q <= qhi + slack): out.append((op + ":inverts", f"Quantile_Gauss({p!r},{mu!r},{s!r}) = {q!r}, the quantile lies in [{qlo!r},{qhi!r}], allowed distance {slack!r}"))
             if not abs(back - p) <= 0.4 * math.sqrt(2) * 1e-4 + 8 * EPS * abs(mu) / s * 0.4 + 4 * dp: out.append((op + ":inverts-cdf", f"CDF_Gauss(Quantile_Gauss({p!r})) = {back!r}"))
-    elif op == "lik":
-        s, n, b = tokf(t[1]), int(t[2]), tokf(t[3])
+    elif op in ("lik", "lik0", "likseq"):
         if exited: return [(op + ":exit", "terminated the process")]
-        ll, lk, pm = head[0], head[1], extra[0]; mu = s + b
-        mag = abs(n * math.log(mu)) + mu + math.lgamma(n + 1)
-        if not abs(lk - math.exp(ll)) <= 4 * EPS * lk: out.append((op + ":exp-of-log", f"Likelihood = {lk!r} but exp(Log_Likelihood) = {math.exp(ll)!r}"))
-        if not abs(lk - pm) <= (64 * EPS * mag + 8 * EPS) * pm + 1e-320: out.append((op + ":is-pmf", f"Likelihood_Poisson({s!r},{n},{b!r}) = {lk!r} but PMF_Poisson(s+b, n) = {pm!r}"))
-        if pm > 1e-300 and not abs(ll - math.log(pm)) <= 64 * EPS * mag + 8 * EPS: out.append((op + ":is-log-pmf", f"Log_Likelihood = {ll!r} but ln PMF_Poisson(s+b, n) = {math.log(pm)!r}"))
-    elif op == "binned":
-        ns = int(t[1]); no = int(t[2 + ns]); nb = int(t[3 + ns + no])
+        if op == "lik": calls = [(tokf(t[1]), int(t[2]), tokf(t[3]))]
+        elif op == "lik0": calls = [(tokf(t[1]), int(t[2]), 0.0)]
+        else: calls = [(tokf(t[2 + 3 * i]), int(t[3 + 3 * i]), tokf(t[4 + 3 * i])) for i in range(int(t[1]))]
+        if len(head) != 2 * len(calls) or len(extra) != len(calls): return [(op + ":shape", f"expected {2*len(calls)} + {len(calls)} values")]
+        for i, (s, n, b) in enumerate(calls):
+            ll, lk, pm = head[2 * i], head[2 * i + 1], extra[i]; mu = s + b
+            where = "" if op != "likseq" else f" (call {i+1} of {len(calls)} in one process)"
+            mag = abs(n * math.log(mu)) + mu + math.lgamma(n + 1)
+            # independent reference: ln(e^-mu mu^n / n!)
+            ref = n * math.log(mu) - mu - math.lgamma(n + 1)
+            if not abs(lk - math.exp(ll)) <= 4 * EPS * lk: out.append((op + ":exp-of-log", f"Likelihood = {lk!r} but exp(Log_Likelihood) = {math.exp(ll)!r}{where}"))
+            if not abs(lk - pm) <= (64 * EPS * mag + 8 * EPS) * pm + 1e-320: out.append((op + ":is-pmf", f"Likelihood_Poisson({s!r},{n},{b!r}) = {lk!r} but PMF_Poisson(s+b, n) = {pm!r}{where}"))
+            if pm > 1e-300 and not abs(ll - math.log(pm)) <= 64 * EPS * mag + 8 * EPS: out.append((op + ":is-log-pmf", f"Log_Likelihood = {ll!r} but ln PMF_Poisson(s+b, n) = {math.log(pm)!r}{where}"))
+            if not abs(ll - ref) <= 64 * EPS * mag + 8 * EPS: out.append((op + ":is-log-pmf", f"Log_Likelihood_Poisson({s!r},{n},{b!r}) = {ll!r} but ln(e^-mu mu^n / n!) at mu = s+b is {ref!r}{where}"))
+    elif op in ("binned", "binned0"):
+        ns = int(t[1]); no = int(t[2 + ns]); nb = int(t[3 + ns + no]) if op == "binned" else 0
         if no != ns or (nb != ns and nb != 0):
             if not exited: out.append((op + ":guard", f"lists of sizes {ns}, {no}, {nb} were accepted"))
             return out
@@ -642,9 +762,26 @@ def predicates(c, io):
         for x in lks: pr *= x
         if not abs(lk - pr) <= (8 * EPS * (ns + 1) * (mag + 1)) * pr + 1e-320: out.append((op + ":product", f"binned likelihood {lk!r} is not the product of the bins' {pr!r}"))
         if not abs(lk - math.exp(ll)) <= 4 * EPS * lk: out.append((op + ":exp-of-log", f"binned likelihood {lk!r} is not exp of the binned log-likelihood"))
-    elif op == "kde":
+        # independent reference: sum over the bins of ln(e^-mu mu^n / n!) at mu = s_i + b_i (bins with mu > 0)
+        sg = [tokf(x) for x in t[2:2 + ns]]; ob = [int(x) for x in t[3 + ns:3 + ns + no]]
+        bg = [tokf(x) for x in t[4 + ns + no:4 + ns + no + nb]] if nb else [0.0] * ns
+        if all(x + y > 0 for x, y in zip(sg, bg)):
+            refs = []; slack = 0.0
+            for x, k, y in zip(sg, ob, bg):
+                mu = x + y
+                refs.append(k * math.log(mu) - mu - math.lgamma(k + 1))
+                slack += 64 * EPS * (abs(k * math.log(mu)) + mu + math.lgamma(k + 1)) + 8 * EPS
+            ref = math.fsum(refs); slack += 4 * EPS * (ns + 1) * math.fsum(abs(x) for x in refs)
+            if not abs(ll - ref) <= slack:
+                out.append((op + ":is-log-pmf", f"binned log-likelihood {ll!r} but the sum over the bins of ln PMF_Poisson(s_i+b_i, n_i) is {ref!r} (signals {sg[:6]}, counts {ob[:6]}, backgrounds {bg[:6]})"))
+            if not abs(lk - math.exp(ref)) <= (slack + 4 * EPS) * math.exp(ref) + 1e-320:
+                out.append((op + ":is-pmf", f"binned likelihood {lk!r} but the product over the bins of PMF_Poisson(s_i+b_i, n_i) is {math.exp(ref)!r}"))
+    elif op in ("kde", "kde0"):
+        N = int(t[1]); xmin, xmax = tokf(t[2 + 2 * N]), tokf(t[3 + 2 * N]); bw = tokf(t[4 + 2 * N]) if op == "kde" else 0.0
+        op = "kde"
+        pts = 150; dx = (xmax - xmin) / (pts - 1); xs = [xmin + j * dx for j in range(pts)]
+        if any(not b > a for a, b in zip(xs, xs[1:])): return out      # abscissae that are not distinct doubles: refused (model: Exit), nothing to evaluate
         if exited: return [(op + ":exit", "a well-formed request terminated the process")]
-        N = int(t[1]); xmin, xmax, bw = tokf(t[2 + 2 * N]), tokf(t[3 + 2 * N]), tokf(t[4 + 2 * N])
         vals = [tokf(x) for x in t[2:2 + 2 * N:2]]; wts = [tokf(x) for x in t[3:3 + 2 * N:2]]
         if bw == 0:      # the rule-of-thumb bandwidth
             sw = math.fsum(wts); av = math.fsum(w * v for v, w in zip(vals, wts)) / sw
@@ -655,7 +792,6 @@ def predicates(c, io):
         pts = head[0]; ys = head[1:]; mids = extra[:pts - 1]; libint = extra[pts - 1]
         if any(not y >= 0 for y in ys) or any(not y >= 0 for y in mids):
             out.append((op + ":nonneg" + region, f"the estimate is negative or NaN somewhere in the window (min {min(ys + mids)!r}, bandwidth {bw!r})")); return out
-        dx = (xmax - xmin) / (pts - 1); xs = [xmin + j * dx for j in range(pts)]
         # each segment of the returned interpolant is a cubic: Simpson's rule with the mid-segment ordinate is exact
         integ = math.fsum((xs[j + 1] - xs[j]) / 6 * (ys[j] + 4 * mids[j] + ys[j + 1]) for j in range(pts - 1))
         # normalisation by Integrate(..., 1e-8) (absolute) of an integral of order 0.01..2: 1e-6 relative
@@ -666,7 +802,10 @@ def predicates(c, io):
         if not err <= 1e-6:
             sig = op + ":normalised" + (region if region else (":quadrature-accuracy" if err <= 1e-2 else ""))
             out.append((sig, f"the estimate integrates to {integ!r} over its window (bandwidth {bw!r}, window width {xmax-xmin!r})"))
-        if not abs(libint - integ) <= 1e-9 * max(1.0, abs(integ)): out.append((op + ":integral", f"Interpolation::Integrate gives {libint!r}, exact Simpson on the cubic segments {integ!r}"))
+        # Interpolation::Integrate differences the segment antiderivatives ... + d_j * x taken at the two segment ends: two numbers of
+        # magnitude |y_j x_j| each rounded a few times (8 eps), per segment; negligible near the origin, eps * |x| / width far from it
+        far = 8 * EPS * math.fsum(max(abs(ys[j]), abs(ys[j + 1])) * max(abs(xs[j]), abs(xs[j + 1])) for j in range(pts - 1))
+        if not abs(libint - integ) <= 1e-9 * max(1.0, abs(integ)) + far: out.append((op + ":integral", f"Interpolation::Integrate gives {libint!r}, exact Simpson on the cubic segments {integ!r}"))
     return out
 
 
@@ -684,8 +823,10 @@ def nontrivial(c, io):
     if op == "poisson": return tokf(t[1]) >= 100 or tokf(t[1]) == 0 or int(t[2]) >= 50 or any(0 < x < 1e-6 or 1 - 1e-6 < x < 1 for x in head[1::2])
     if op == "invpoisson": return int(t[1]) >= 50 or int(t[1]) == 0 or not (1e-6 < tokf(t[2]) < 1 - 1e-6)
     if op == "quantile": return not (1e-6 < tokf(t[1]) < 1 - 1e-6)
-    if op == "lik": return int(t[2]) >= 50 or tokf(t[1]) + tokf(t[3]) >= 100
-    if op == "binned": return int(t[1]) >= 2
-    if op == "kde": return int(t[1]) >= 3
+    if op == "lik": return int(t[2]) >= 50 or tokf(t[1]) + tokf(t[3]) >= 100 or tokf(t[1]) == 0
+    if op == "lik0": return int(t[2]) >= 50 or tokf(t[1]) >= 100
+    if op == "likseq": return int(t[1]) >= 2
+    if op in ("binned", "binned0"): return int(t[1]) >= 2
+    if op in ("kde", "kde0"): return int(t[1]) >= 3
     if op == "gauss2d": return head[0] < 1e-6
     return False
